@@ -493,7 +493,7 @@ func (*Parser).parseWhere
   loop 1 decreases 101 - iterations
 
 func (*Parser).parseHaving
-  props C11 C06 C16 C17
+  props C11 C06 C16 C17 C13 C07
   option safety
   requires parOK(p) && stmt != nil
   modifies stmt.Having, heap(Lexer.ch), heap(Lexer.pos), heap(Lexer.readPos), heap(Lexer.line), heap(Lexer.column), p.errorRecovery.errors
